@@ -10,6 +10,7 @@ import OrasModel.Proofs.OciCascade
 import OrasModel.Proofs.OciGc
 import OrasModel.Proofs.OciGcSound
 import OrasModel.Proofs.OciCascadeComplete
+import OrasModel.Proofs.OciGcNames
 import OrasModel.Gen.Facts
 namespace Oras.Props.C09
 open Oras Oras.OciSt
@@ -456,5 +457,28 @@ example :
     cases hc with
     | one h => simp [c] at h
     | more h _ _ => simp [c] at h
+
+/-- **`GC` keeps every name**: whether `Store.GC` succeeds or fails, every reference name
+    resolves afterwards to what it resolved to before - however many names one manifest
+    carries (the collection rebuilds the resolver from the named entries and only adds digest
+    entries). -/
+theorem c09_gc_keeps_names (c : OciCfg) (fixed repeatPass saveAfter : Bool) (st : OciSt) (fuel : Nat)
+    (hu : RefUniq st) (t : Nat) :
+    (st.gc c fixed repeatPass saveAfter fuel).1.lookupRef (.tag t) = st.lookupRef (.tag t) :=
+  gc_names c fixed repeatPass saveAfter st fuel hu t
+
+/-- Non-vacuity: one manifest under two names, and a third name that is not set. -/
+example :
+    let c : OciCfg := ⟨fun n => if n = 9 then [1] else [], fun n => n == 9, fun _ => none⟩
+    let st : OciSt := { OciSt.empty with blobs := [9, 1], refs := [(.tag 0, 9, 0), (.tag 1, 9, 2), (.dig 9, 9, 0)] }
+    RefUniq st ∧ (st.gc c true true true 5).1.lookupRef (.tag 0) = some (9, 0) ∧
+      (st.gc c true true true 5).1.lookupRef (.tag 1) = some (9, 2) ∧
+      (st.gc c true true true 5).1.lookupRef (.tag 2) = none := by
+  intro c st
+  have hu : RefUniq st := by unfold RefUniq; decide
+  refine ⟨hu, ?_, ?_, ?_⟩
+  · rw [c09_gc_keeps_names c true true true st 5 hu 0]; rfl
+  · rw [c09_gc_keeps_names c true true true st 5 hu 1]; rfl
+  · rw [c09_gc_keeps_names c true true true st 5 hu 2]; rfl
 
 end Oras.Props.C09
